@@ -43,7 +43,11 @@ def real_load(kind: str, data: bytes, cut=None, ext=".txt", preload=None):
     from lithium.util import LithiumError
 
     p = scratch() / f"in-{os.getpid()}{ext}"
-    t = new_testcase(kind, cut)
+    try:
+        t = new_testcase(kind, cut)
+    except Exception as exc:  # pylint: disable=broad-except
+        # e.g. set_cut_chars() building an invalid pattern from a valid delimiter set
+        return ("err", "internal " + type(exc).__name__ + " (creating the testcase object)", exc)
     if preload is not None:
         p.write_bytes(preload)
         t.load(p)
